@@ -93,7 +93,7 @@ def judge(case, im, mo):
         L = F(float(np.log10(d1) - np.log10(d0)))
         x = 1 + L / F(case['logd_step'])
         frac = x - math.floor(x)
-        if min(frac, 1 - frac) > Fraction(1, 10 ** 9):
+        if frac == 0 or min(frac, 1 - frac) > Fraction(1, 10 ** 9):      # an exact whole number of steps is decidable; a near-integer is a rounding tie
             if im['n_distances'] != nmodel:
                 disagree.append('n_distances: implementation %d, model %d' % (im['n_distances'], nmodel))
             n = im['n_distances']
